@@ -43,6 +43,8 @@ def render(chain, explicit=None, extra=None):
             s += extra(it)
         if (it.get('mult', 1) > 1 or it.get('show1')) and not it['branches']:
             s += '|%d' % it['mult']
+        if it.get('nmult', 1) > 1 and it['branches']:
+            s += '|%d' % it['nmult']           # a multiplied node whose last copy anchors the branches
         for b in it['branches']:
             s += sym(b[0]['order']) + '(' + render(b, explicit, extra) + ')'
         if (it.get('mult', 1) > 1 or it.get('show1')) and it['branches']:
@@ -81,8 +83,14 @@ def expand(chain):
     out = []
     for it in chain:
         brs = [expand(b) for b in it['branches']]
+        if it['branches']:
+            for k in range(it.get('nmult', 1) - 1):
+                out.append(dict(name=it['name'], anno=list(it.get('anno', [])), order=it['order'] if k == 0 else 1, branches=[],
+                                mult=1, morder=1, rings=[]))
         for k in range(it.get('mult', 1)):
             o = it['order'] if k == 0 else (it.get('morder', 1) if it['branches'] else 1)
+            if k == 0 and it['branches'] and it.get('nmult', 1) > 1:
+                o = 1
             out.append(dict(name=it['name'], anno=list(it.get('anno', [])), order=o, branches=[list(b) for b in brs],
                             mult=1, morder=1, rings=list(it.get('rings', [])) if it.get('mult', 1) == 1 else []))
     return out
@@ -93,7 +101,8 @@ def count_nodes(chain):
 
 
 def has_mult(chain):
-    return any(it.get('mult', 1) > 1 or any(has_mult(b) for b in it['branches']) for it in chain)
+    return any(it.get('mult', 1) > 1 or (it.get('nmult', 1) > 1 and it['branches']) or any(has_mult(b) for b in it['branches'])
+               for it in chain)
 
 
 def flat_items(chain):
@@ -119,7 +128,8 @@ def rnd_chain(rng, depth, maxlen, pm=0.0, names='ABC', annos=False, orders=(1, 1
         ch.append(dict(name=rng.choice(names) + (rng.choice(['', '', '1', 'x']) if annos else ''), show1=show1,
                        anno=list(rng.choice(ANNOS)) if annos else [],
                        order=rng.choice(orders), branches=br, mult=mult,
-                       morder=rng.choice([1, 1, 2, 0]), rings=[]))
+                       morder=rng.choice([1, 1, 2, 0]), rings=[],
+                       nmult=rng.choice([2, 3]) if (br and pm > 0 and rng.random() < 0.12) else 1))
     return ch
 
 
@@ -161,9 +171,10 @@ def add_rings(rng, chain, nrings, big_ids=False):
                 in_use[e] = rid
                 items[idx]['rings'].append([rid, e[2], True])
     for it in items:
-        if it['rings'] and (it.get('mult', 1) > 1 or it.get('show1')):
+        if it['rings'] and (it.get('mult', 1) > 1 or it.get('show1') or it.get('nmult', 1) > 1):
             it['mult'] = 1        # ring markers on multiplied nodes are outside the grammar
             it['show1'] = False
+            it['nmult'] = 1
     return len(chosen)
 
 
